@@ -25,9 +25,9 @@ CLAIMED = {
         note="Trusted: Lean kernel; axum/matchit routing semantics as stated in Model/Server.lean (404/405 for undeclared routes follow from it, not from a proof about axum); extractor internals not modelled. Known findings: TRACE registered twice (oas3 crate), every payload sent as JSON, 3XX answered with 500.",
         ref="§6 C05"),
     "C06": dict(
-        text="Composition of the C04 client-chain model and the C05 server-table model over ONE responses object: Lean counter-example theorems exhibit exactly the configurations where server status/encoding and client dispatch disagree (default sent as 200, range sent as its first code, same-status variants, JSON-encoded text); the check runs the generator twice (client-mod, server-mod), feeds every server variant's (status, encoding) into the client's emitted chain and compares the wire shapes of all types between the two runs.",
-        note="Trusted: Lean kernel; the C03/C04/C05 models; HTTP framing, serde payload encoding and axum extractors are not modelled. The positive interop theorem is proved for exact-code variants via C04's dispatch theorem; the other variant kinds are characterised by known-finding classes.",
-        ref="§6 C06"),
+        text="Composition of the C04 client-chain model and the C05 server-table model over ONE responses object: Lean counter-example theorems exhibit exactly the configurations where server status/encoding and client dispatch disagree (default sent as 200, range sent as its first code, same-status variants, JSON-encoded text); the check runs the generator twice (client-mod, server-mod), feeds every server variant's (status, encoding) into the client's emitted chain and compares the wire shapes of all types between the two runs. REQUEST side (same two runs, op `interop.req`): the client's method / URL push chain / query struct / header map / body encoder and the server's router entries / extractors / header lookups / body extractor, plus the string codecs of every enum that travels as a path, query or header parameter (client Display arms and serde renames; server FromStr arms WITH the scrutinee transform, hand-written Deserialize), are read with syn from the two emitted halves and judged by the decidable `reqInteropOk`; Lean theorems: route_roundtrip (pattern derived from the chain matches the emitted segments and captures exactly the pushed values, unbounded), enum_roundtrip_iff, req_interop_sound (judge true => serverExtract (clientRequest v) = v on the modelled parts), decide'd witnesses lowercase_breaks, trailing_slash_significant, param_suffix_rejected, raw_ident_capture_breaks; the route matcher is compared with the real matchit crate on every run (`interop.req.route`).",
+        note="Trusted: Lean kernel; the C03/C04/C05 models; HTTP framing, serde payload encoding and axum extractors are not modelled. The positive interop theorem is proved for exact-code variants via C04's dispatch theorem; the other variant kinds are characterised by known-finding classes. Request side: trusted are the syn extraction (harness/src/k_req.rs; anything it cannot read is reported as unreadable and fails the judge), the stated axum/matchit route semantics (compared with matchit 0.8.4, not verified), std Display/FromStr of integers and booleans, serde_urlencoded/axum extractor internals beyond names and kinds; HTTP framing is not modelled. Five request-side classes are recorded (F-C06-6..10).",
+        ref="§6 C06, §12.5"),
     "C07": dict(
         text="Lean 4 proofs over a model of SchemaRegistry::collect/reachable: the checked closure is sound (contains the seeds, closed under the dependency relation), minimal (everything in it is a seed or TC-reachable from one) and total (fuel suffices), so the emitted set is exactly the reachable set; collect covers every direct and nested member/union/allOf/items reference. The model's dependency map, cyclic set and reachable set are compared with the real SchemaRegistry on every case; the files emitted by the current sources are parsed with syn and judged: every mentioned type defined exactly once, every emitted schema type transitively referenced by a selected operation (spec-level closure incl. map values, mappings, both parameter levels).",
         note="Trusted: Lean kernel; petgraph DFS/SCC replaced by the proved closure and compared per case; syn extraction + external-crate allow-list. Four escape routes of collect are reproduced and recorded as known findings (additionalProperties $ref, nullable wrapper, single-$ref union, path-item parameters).",
